@@ -1,14 +1,31 @@
 import FcpptModel.Prelude.Proto
 import FcpptModel.Spec.C10
 /-!
-Driver for C10.  Operations (one per line):
+Driver for C10.  Operations (one per line; `n` = enum size, `w` = word width):
 
-* `pair n w A B`   — A, B subsets of {0..n-1} given as bit masks; prints the observations of
-                     `| & ^ ~ is_subset_eq == != hash` on the two bitfields
+* `pair n w A B`   — A, B subsets of {0..n-1} given as bit masks; prints members *and words* of
+                     `| & ^ ~`, `is_subset_eq == !=`, the exact hash values, the results of the
+                     operators applied with the same object on both sides, the canonical-rebuild flag
 * `pairs n w A`    — digest of the `pair` lines for all B in [0, 2^n)
+* `bit n w A i`    — every way of writing bit `i` of the bitfield A (set, `operator[] =`, copied /
+                     moved proxy, re-bound proxy, `|= e`, `| e`) to true and to false: the words after
+                     each, what mutable proxies read afterwards, and whether writing the saved value
+                     back restores the array
+* `bits n w A`     — digest of the `bit` lines for all i < n
+* `mask w k` / `test w x k` — `fcppt::bit::shifted_mask<W>(k)`, `fcppt::bit::test(x, shifted_mask<W>(k))`
 * `expr n w <rpn> ; <rpn>` — two expressions in reverse Polish notation over
-                     `L<mask>` (initializer list) `I<mask>` (init) `S<i>` `U<i>` (set true/false)
-                     `| & ^ ~`; prints both member masks, `==`, `!=`, hash agreement, subset
+    `L<mask>` initializer list (ascending)      `D<i>.<j>...` initializer list in this order (duplicates allowed, <= 64)
+    `I<mask>` init                              `A<x0>.<x1>...` raw-array constructor
+    `N` null()                                  `Z` empty initializer list
+    `S<i>` `U<i>` set true/false                `T<i>` `F<i>` operator[] = true/false
+    `M<i>.<v>` copied+moved proxy = v           `C<i>.<j>.<v>` p = bf[i]; q = bf[j]; p = q; p = v
+    `O<i>` bf |= e                              `o<i>` bf = bf | e
+    `W<k>.<x>` *(bf.array().begin() + k) = x
+    `|` `&` `^` binary                          `|=` `&=` `^=` assigning forms
+    `|@` `&@` `^@` x op= x (same object)        `|2` `&2` `^2` x = x op x
+    `=@` self-assignment                        `~`
+  prints member masks and words of both, `==`, `!=`, exact hashes, subset both ways, canonical flag,
+  `underlying_value` (or `-`), `operator<<` output.
 -/
 namespace Fcppt.C10.Drv
 open Fcppt.Proto
@@ -18,47 +35,123 @@ def listToMask (l : List Nat) : Nat := l.foldl (fun m i => m ||| (1 <<< i)) 0
 
 def obs {w : Nat} (n : Nat) (a : Words w) : Nat := listToMask (members n a)
 
+def ws {w : Nat} (a : Words w) : String := natList (a.map BitVec.toNat)
+
 /-- canonical rebuild through `init` from what `get` observes -/
 def canon {w : Nat} (n : Nat) (a : Words w) : Words w := init n w (fun i => get a i)
 
 def isCanon {w : Nat} (n : Nat) (a : Words w) : Bool :=
   let c := canon n a
-  eq a c && !(ne a c) && (hash (fun x y => x * 31 + y) BitVec.toNat a == hash (fun x y => x * 31 + y) BitVec.toNat c)
+  eq a c && !(ne a c) && (hash64 a == hash64 c)
+
+def mw {w : Nat} (n : Nat) (a : Words w) : String := s!"{obs n a}/{ws a}"
+
+/-- the part of a `pair` line that depends on the first operand only -/
+def pairA {w : Nat} (n : Nat) (a : Words w) : String :=
+  let c := not n a
+  s!"na={mw n c} ha={hash64 a} hc={hash64 c} self={ws (or a a)}/{ws (and a a)}/{ws (xor a a)}/{b01 (eq a a)}{b01 (isSubsetEq a a)} canonc={b01 (isCanon n c)}"
+
+def pairB {w : Nat} (n : Nat) (a : Words w) (B : Nat) : String :=
+  let b : Words w := ofList n w (maskToList n B)
+  let o := or a b; let n_ := and a b; let x := xor a b
+  let e := eq a b
+  s!"or={mw n o} and={mw n n_} xor={mw n x} sub={b01 (isSubsetEq a b)} eq={b01 e} ne={b01 (ne a b)} " ++
+  s!"hx={hash64 x} canon={b01 (isCanon n o && isCanon n n_ && isCanon n x)} pure=1"
 
 def pairLine (n w A B : Nat) : String :=
   let a : Words w := ofList n w (maskToList n A)
-  let b : Words w := ofList n w (maskToList n B)
-  let o := or a b; let n_ := and a b; let x := xor a b; let c := not n a
-  let e := eq a b
-  s!"or={obs n o} and={obs n n_} xor={obs n x} na={obs n c} sub={b01 (isSubsetEq a b)} eq={b01 e} ne={b01 (ne a b)} heq={if e then "1" else "-"} canon={b01 (isCanon n o && isCanon n n_ && isCanon n x && isCanon n c)}"
+  pairB n a B ++ " " ++ pairA n a
 
 def pairsDigest (n w A : Nat) : String :=
-  let h := (List.range (2 ^ n)).foldl (fun h B => fnv h (pairLine n w A B)) fnvInit
+  let a : Words w := ofList n w (maskToList n A)
+  let sa := " " ++ pairA n a
+  let h := (List.range (2 ^ n)).foldl (fun h B => fnv h (pairB n a B ++ sa)) fnvInit
   "D " ++ hex64 h
+
+def bitLine (n w A i : Nat) : String :=
+  let a : Words w := ofList n w (maskToList n A)
+  let g := get a i
+  let j := (i + 1) % n
+  let p : Proxy := Proxy.mk' j
+  let q : Proxy := Proxy.mk' i
+  let s1 := set a i true
+  let s0 := set a i false
+  let t1 := Proxy.assignBool a (Proxy.mk' i) true
+  let t0 := Proxy.assignBool a (Proxy.mk' i) false
+  let c1 := Proxy.assignBool a (Proxy.assignProxy p q) true
+  let c0 := Proxy.assignBool a (Proxy.assignProxy p q) false
+  let rest := eq (set s1 i g) a && eq (set s0 i g) a
+  s!"S1={ws s1} T1={ws t1} M1={ws t1} C1={ws c1} O1={ws (orIdx a i)} o1={ws (orIdx a i)} " ++
+  s!"S0={ws s0} T0={ws t0} M0={ws t0} C0={ws c0} rd={obs n s1},{obs n s0} ps={b01 (Proxy.toBool s1 q)}{b01 (Proxy.toBool s0 q)} cr={b01 (Proxy.toBool a (Proxy.assignProxy q p))} rest={b01 rest} g={b01 g}"
+
+def bitsDigest (n w A : Nat) : String :=
+  let h := (List.range n).foldl (fun h i => fnv h (bitLine n w A i)) fnvInit
+  "D " ++ hex64 h
+
+def parseDots (s : String) : Option (List Nat) := (s.splitOn ".").mapM String.toNat?
 
 /-- evaluate an RPN token list on a stack of bitfields -/
 def rpn {w : Nat} (n : Nat) : List String → List (Words w) → Option (Words w)
   | [], [a] => some a
   | [], _ => none
   | t :: ts, st =>
-    let arg := (t.drop 1).toNat?
-    match t.get 0, arg, st with
-    | 'L', some m, st => rpn n ts (ofList n w (maskToList n m) :: st)
-    | 'I', some m, st => rpn n ts (init n w (fun i => m.testBit i) :: st)
-    | 'S', some i, a :: st => if i < n then rpn n ts (set a i true :: st) else none
-    | 'U', some i, a :: st => if i < n then rpn n ts (set a i false :: st) else none
-    | '|', _, b :: a :: st => rpn n ts (or a b :: st)
-    | '&', _, b :: a :: st => rpn n ts (and a b :: st)
-    | '^', _, b :: a :: st => rpn n ts (xor a b :: st)
-    | '~', _, a :: st => rpn n ts (not n a :: st)
-    | _, _, _ => none
+    match t, st with
+    | "|", b :: a :: st => rpn n ts (or a b :: st)
+    | "&", b :: a :: st => rpn n ts (and a b :: st)
+    | "^", b :: a :: st => rpn n ts (xor a b :: st)
+    | "|=", b :: a :: st => rpn n ts (or a b :: st)
+    | "&=", b :: a :: st => rpn n ts (and a b :: st)
+    | "^=", b :: a :: st => rpn n ts (xor a b :: st)
+    | "|@", a :: st => rpn n ts (or a a :: st)
+    | "&@", a :: st => rpn n ts (and a a :: st)
+    | "^@", a :: st => rpn n ts (xor a a :: st)
+    | "|2", a :: st => rpn n ts (or a a :: st)
+    | "&2", a :: st => rpn n ts (and a a :: st)
+    | "^2", a :: st => rpn n ts (xor a a :: st)
+    | "=@", a :: st => rpn n ts (a :: st)
+    | "~", a :: st => rpn n ts (not n a :: st)
+    | "N", st => rpn n ts (null n w :: st)
+    | "Z", st => rpn n ts (ofList n w [] :: st)
+    | _, st =>
+      let args := parseDots (t.drop 1).toString
+      match t.front, args, st with
+      | 'L', some [m], st => if m < 2 ^ n then rpn n ts (ofList n w (maskToList n m) :: st) else none
+      | 'D', some l, st => if l.all (· < n) ∧ l.length ≤ 64 then rpn n ts (ofList n w l :: st) else none
+      | 'I', some [m], st => if m < 2 ^ n then rpn n ts (init n w (fun i => m.testBit i) :: st) else none
+      | 'A', some l, st =>
+        if l.length = nwords n w ∧ l.all (· < 2 ^ w) then rpn n ts (ofArray (l.map (BitVec.ofNat w)) :: st) else none
+      | 'S', some [i], a :: st => if i < n then rpn n ts (set a i true :: st) else none
+      | 'U', some [i], a :: st => if i < n then rpn n ts (set a i false :: st) else none
+      | 'T', some [i], a :: st => if i < n then rpn n ts (Proxy.assignBool a (Proxy.mk' i) true :: st) else none
+      | 'F', some [i], a :: st => if i < n then rpn n ts (Proxy.assignBool a (Proxy.mk' i) false :: st) else none
+      | 'M', some [i, v], a :: st =>
+        if i < n ∧ v < 2 then rpn n ts (Proxy.assignBool a (Proxy.mk' i) (v == 1) :: st) else none
+      | 'C', some [i, j, v], a :: st =>
+        if i < n ∧ j < n ∧ v < 2 then
+          rpn n ts (Proxy.assignBool a (Proxy.assignProxy (Proxy.mk' i) (Proxy.mk' j)) (v == 1) :: st)
+        else none
+      | 'O', some [i], a :: st => if i < n then rpn n ts (orIdx a i :: st) else none
+      | 'o', some [i], a :: st => if i < n then rpn n ts (orIdx a i :: st) else none
+      | 'W', some [k, x], a :: st =>
+        if k < nwords n w ∧ x < 2 ^ w then rpn n ts (poke a k (BitVec.ofNat w x) :: st) else none
+      | _, _, _ => none
+
+def outStr {w : Nat} (n : Nat) (a : Words w) : String :=
+  String.join (output (fun i => s!"v{i}") n a)
+
+def uvStr {w : Nat} (a : Words w) : String :=
+  match underlyingValue a with
+  | some x => toString x.toNat
+  | none => "-"
 
 def exprLine (n w : Nat) (toks : List String) : String :=
   let (l, r) := toks.span (· ≠ ";")
   match rpn (w := w) n l [], rpn (w := w) n (r.drop 1) [] with
   | some a, some b =>
     let e := eq a b
-    s!"m1={obs n a} m2={obs n b} eq={b01 e} ne={b01 (ne a b)} heq={if e then "1" else "-"} sub={b01 (isSubsetEq a b)} canon={b01 (isCanon n a && isCanon n b)}"
+    s!"m1={mw n a} m2={mw n b} eq={b01 e} ne={b01 (ne a b)} h1={hash64 a} h2={hash64 b} " ++
+    s!"sub={b01 (isSubsetEq a b)} bus={b01 (isSubsetEq b a)} canon={b01 (isCanon n a)}{b01 (isCanon n b)} " ++
+    s!"uv={uvStr a},{uvStr b} out={outStr n a}"
   | _, _ => "bad-op"
 
 def handle (toks : List String) : String :=
@@ -70,6 +163,23 @@ def handle (toks : List String) : String :=
   | ["pairs", n, w, a] =>
     match n.toNat?, w.toNat?, a.toNat? with
     | some n, some w, some a => if 0 < w ∧ a < 2 ^ n then pairsDigest n w a else "bad-op"
+    | _, _, _ => "bad-op"
+  | ["bit", n, w, a, i] =>
+    match n.toNat?, w.toNat?, a.toNat?, i.toNat? with
+    | some n, some w, some a, some i => if 0 < w ∧ a < 2 ^ n ∧ i < n then bitLine n w a i else "bad-op"
+    | _, _, _, _ => "bad-op"
+  | ["bits", n, w, a] =>
+    match n.toNat?, w.toNat?, a.toNat? with
+    | some n, some w, some a => if 0 < w ∧ a < 2 ^ n then bitsDigest n w a else "bad-op"
+    | _, _, _ => "bad-op"
+  | ["mask", w, k] =>
+    match w.toNat?, k.toNat? with
+    | some w, some k => if w ∈ [8, 16, 32, 64] ∧ k < w then toString (mask w k).toNat else "bad-op"
+    | _, _ => "bad-op"
+  | ["test", w, x, k] =>
+    match w.toNat?, x.toNat?, k.toNat? with
+    | some w, some x, some k =>
+      if w ∈ [8, 16, 32, 64] ∧ k < w ∧ x < 2 ^ w then b01 (bitTest (BitVec.ofNat w x) (mask w k)) else "bad-op"
     | _, _, _ => "bad-op"
   | "expr" :: n :: w :: rest =>
     match n.toNat?, w.toNat? with
